@@ -105,7 +105,7 @@ class BranchingList:
                 path_old = self.cases[id_old].path
             if node.case_type==Keyword.CASE:
                 pass
-            elif node.case_type==Keyword.ELSE and self.cases:
+            elif node.case_type==Keyword.ELSE and self.state and not path_new>path_old:
                 pass
             elif node.case_type==Keyword.END and self.cases and path_old==path_new:
                 self._close_branch()
